@@ -127,10 +127,16 @@ fn emit_stale(w: &mut NdWriter, id: String, text: &str, names: &[String], stats:
         return;
     }
     // one stream per anchor name: a second document using several names would fail on the first unknown one
-    for (k, name) in used.iter().enumerate() {
-        let second = format!("[*{name}]");
+    // (the second document either only uses the name, or first defines an anchor of its own under another name: the stale name
+    // must not resolve to that one either)
+    for (k, (name, own)) in used.iter().flat_map(|n| [(n, false), (n, true)]).enumerate() {
+        let second = if own { format!("[&zzfresh 9, *{name}]") } else { format!("[*{name}]") };
         let stream = if text.trim_end().contains('\n') { format!("---\n{}\n--- {second}\n", text.trim_end()) } else { format!("--- {}\n--- {second}\n", text.trim_end()) };
-        let raw = vec![AEv::new("SS", 0, "", "p", ""), AEv::new("AL", 1, "", "p", ""), AEv::new("SE", 0, "", "p", "")];
+        let raw = if own {
+            vec![AEv::new("SS", 0, "", "p", ""), AEv::new("S", 2, "9", "p", ""), AEv::new("AL", 1, "", "p", ""), AEv::new("SE", 0, "", "p", "")]
+        } else {
+            vec![AEv::new("SS", 0, "", "p", ""), AEv::new("AL", 1, "", "p", ""), AEv::new("SE", 0, "", "p", "")]
+        };
         let s2 = stream.clone();
         let obs = match guarded(move || {
             let mut c = std::io::Cursor::new(s2.into_bytes());
